@@ -1,67 +1,53 @@
 (* C19 -- sensors, battery, CPU frequency/count, cpu_stats, boot time mirror the kernel's tables.
    Statements only; proofs live in C19/Proofs*.v.  Model: C19/Model.v (transcription of
    psutil/_pslinux.py, psutil/__init__.py), specification: C19/Spec.v. *)
-From PV Require Import C19.Spec C19.Proofs C19.ProofsTemps C19.ProofsFans C19.ProofsBattery C19.ProofsCpu.
+From PV Require Import C19.Spec C19.Proofs C19.ProofsTemps C19.ProofsFans C19.ProofsBattery C19.ProofsCpu C19.ProofsStat.
 
 (* T1+T2: every hwmon layout (any chips/sensors, every subset of input/max/crit/label/name present, absent,
-   unreadable, non-numeric): the call returns a value; under each unit name exactly the sensors whose reading
-   and chip name are readable, current = millidegrees/1000, thresholds /1000 or None, Fahrenheit = C*9/5+32,
-   a missing threshold filled from the other.  Celsius layouts with a present-but-zero threshold are excluded
-   (known finding, refuted below). *)
+   unreadable, non-numeric, negative or zero values): the call returns a value (never fails); under each unit
+   name exactly the sensors whose reading and chip name are readable, current = millidegrees/1000, thresholds
+   /1000 or None, Fahrenheit = C*9/5+32, a missing threshold filled from the other; no entry otherwise. *)
 Theorem C19_temps_values : forall chips zones fahr,
   forallb kchip_ok chips = true -> hwmon_entries chips <> [] ->
-  fahr = true \/ no_zero_threshold chips = true ->
   exists d, sensors_temperatures (hwmon_entries chips) zones fahr = Val d /\
     forall n, dict_get n d = match spec_temps_of fahr n chips with [] => None | l => Some l end.
 Proof. exact temps_values. Qed.
 Print Assumptions C19_temps_values.
 
-(* ... and with no exclusion at all: the call never fails, unreadable sensors are skipped, and each reported
-   sensor is the platform reading passed through the front end (conversion + back-fill as coded) *)
-Theorem C19_temps_total : forall chips zones fahr,
-  forallb kchip_ok chips = true -> hwmon_entries chips <> [] ->
-  exists d, sensors_temperatures (hwmon_entries chips) zones fahr = Val d /\
-    forall n, dict_get n d =
-      match flat_map (fun c => name_is n (kc_name c) (somes (map raw_sensor (kc_sensors c)))) chips with
-      | [] => None
-      | l => Some (map (front_reading fahr) l)
-      end.
-Proof. exact temps_total. Qed.
-Print Assumptions C19_temps_total.
-
-(* finding: temp1_max = 0 (present) and temp1_crit = 100000: high is reported as 100.0, not 0.0 *)
-Theorem C19_temps_zero_threshold_refuted :
+(* the code before commit 60747a2 (truthiness back-fill, [sensors_temperatures_at true]): temp1_max = 0 (present)
+   and temp1_crit = 100000 -> high was reported as 100.0, not 0.0 *)
+Theorem C19_temps_legacy_backfill_refuted :
   exists chips d r, forallb kchip_ok chips = true /\ hwmon_entries chips <> [] /\
-    sensors_temperatures (hwmon_entries chips) [] false = Val d /\
+    sensors_temperatures_at true (hwmon_entries chips) [] false = Val d /\
     dict_get (bs "acpitz") d = Some [r] /\ tr_high r = Some (100000 / 1000)%Q /\
     exists r', spec_temps_of false (bs "acpitz") chips = [r'] /\ tr_high r' = Some (0 / 1000)%Q.
 Proof. exact temps_zero_refuted. Qed.
-Print Assumptions C19_temps_zero_threshold_refuted.
+Print Assumptions C19_temps_legacy_backfill_refuted.
 
 (* T3: thermal-zone fallback (no hwmon temperature file at all): current = temp/1000, high/critical = the trip
-   point of that type reached last by the iteration, scaled exactly once -- for every order of the trip points *)
+   point of that type reached last by the iteration, scaled exactly once -- for every order of the trip points,
+   any number of zones and trip points, every subset of files *)
 Theorem C19_thermal_zones_scaled_once : forall zs fahr,
-  forallb kzone_ok zs = true -> fahr = true \/ no_zero_trip zs = true ->
+  forallb kzone_ok zs = true ->
   exists d, sensors_temperatures [] (map zone_entry zs) fahr = Val d /\
     forall n, dict_get n d = match spec_zones_of fahr n zs with [] => None | l => Some l end.
 Proof. exact zones_values. Qed.
 Print Assumptions C19_thermal_zones_scaled_once.
 
-(* T4: fans.  g = true is the proposed repair (name read inside the try block), g = false the code as it is,
-   which meets the specification on layouts where every chip with a readable fan has a readable name file *)
-Theorem C19_fans_values : forall g chips, forallb kfanchip_ok chips = true ->
-  g = true \/ fan_names_readable chips = true ->
-  exists d, sensors_fans g (fan_entries chips) = Val d /\
+(* T4: fans, every layout: under each unit name the fans whose input and chip name are readable; a fan whose
+   input or name file is missing/unreadable is skipped; the call does not fail *)
+Theorem C19_fans_values : forall chips, forallb kfanchip_ok chips = true ->
+  exists d, sensors_fans true (fan_entries chips) = Val d /\
     forall n, dict_get n d = match spec_fans_of n chips with [] => None | l => Some l end.
-Proof. exact fans_values. Qed.
+Proof. exact (fun chips H => fans_values true chips H (or_introl eq_refl)). Qed.
 Print Assumptions C19_fans_values.
 
-(* finding: a fan whose chip has no name file makes the whole call fail with a bare OSError *)
-Theorem C19_fans_name_refuted :
+(* the code before commit e09e22a ([sensors_fans false]): a fan whose chip has no name file made the call fail *)
+Theorem C19_fans_legacy_name_refuted :
   exists chips, forallb kfanchip_ok chips = true /\ sensors_fans false (fan_entries chips) = Exc OSError
                 /\ sensors_fans true (fan_entries chips) = Val [].
 Proof. exact fans_name_refuted. Qed.
-Print Assumptions C19_fans_name_refuted.
+Print Assumptions C19_fans_legacy_name_refuted.
 
 (* T5: one battery, every subset of energy_/charge_ now/full, power_/current_ now, capacity, status, AC0/AC:
    percent = 100*now/full (0 when full = 0) else capacity, None when neither; seconds = now*3600/power,
@@ -73,17 +59,17 @@ Print Assumptions C19_battery_values.
 
 (* ... any directory listing: only battery-named entries count, no battery -> None, otherwise the reported
    battery is an entry of the directory ... *)
-Theorem C19_battery_selection : forall g l ac0 ac, supply_ok l = true ->
+Theorem C19_battery_selection : forall l ac0 ac, supply_ok l = true ->
   match batteries l with
-  | [] => sensors_battery g (Some (supply_listing l)) (to_fres k_online ac0) (to_fres k_online ac) = Val None
+  | [] => sensors_battery true (Some (supply_listing l)) (to_fres k_online ac0) (to_fres k_online ac) = Val None
   | x :: r =>
     let b := snd (min_entry x r) in
     In (min_entry x r) (batteries l) /\
     (tte_unused b = true ->
-     sensors_battery g (Some (supply_listing l)) (to_fres k_online ac0) (to_fres k_online ac)
+     sensors_battery true (Some (supply_listing l)) (to_fres k_online ac0) (to_fres k_online ac)
      = Val (spec_battery b ac0 ac))
   end.
-Proof. exact battery_selection. Qed.
+Proof. exact (battery_selection true). Qed.
 Print Assumptions C19_battery_selection.
 
 (* ... namely one with the least name *)
@@ -92,11 +78,12 @@ Theorem C19_battery_first_by_name : forall (x : bytes * kbat) l z,
 Proof. exact (@battery_first_by_name kbat). Qed.
 Print Assumptions C19_battery_first_by_name.
 
-(* finding: /sys/class/power_supply missing altogether -> bare FileNotFoundError instead of None *)
-Theorem C19_battery_nodir_refuted :
-  sensors_battery false None FAbsent FAbsent = Exc OSError /\ sensors_battery true None FAbsent FAbsent = Val None.
-Proof. exact battery_nodir_refuted. Qed.
-Print Assumptions C19_battery_nodir_refuted.
+(* /sys/class/power_supply missing altogether -> None; the code before commit 3a32a00 ([sensors_battery false])
+   raised a bare FileNotFoundError *)
+Theorem C19_battery_no_power_supply_dir : forall ac0 ac,
+  sensors_battery true None ac0 ac = Val None /\ sensors_battery false None ac0 ac = Exc OSError.
+Proof. exact (fun _ _ => conj eq_refl eq_refl). Qed.
+Print Assumptions C19_battery_no_power_supply_dir.
 
 (* T6: cpu_freq(percpu=True), sysfs implementation reading the policy files: kHz/1000 per CPU, zeros for an
    offline CPU, for any number of CPUs *)
@@ -125,9 +112,24 @@ Theorem C19_cpu_count_front : forall r,
 Proof. exact cpu_count_front_spec. Qed.
 Print Assumptions C19_cpu_count_front.
 
-(* T8: nothing exposed by the kernel: {} / {} / None / None *)
+(* T7: cpu_stats() over every printed /proc/stat holding one ctxt, one intr and one softirq line, in any order and
+   among any number of cpu / btime / other lines: exactly those three counters (syscalls = 0) *)
+Theorem C19_cpu_stats : forall ls, stat_ok' ls = true ->
+  cpu_stats (FC (k_stat ls)) = Val (first_ctxt ls, first_intr ls, first_softirq ls, 0).
+Proof. exact cpu_stats_spec. Qed.
+Print Assumptions C19_cpu_stats.
+
+(* boot_time() = the kernel's btime (first btime line); RuntimeError when the file has none *)
+Theorem C19_boot_time : forall ls, forallb statline_ok ls = true ->
+  boot_time (FC (k_stat ls)) =
+  match first_btime ls with Some b => Val (inject_Z b) | None => Exc RuntimeError end.
+Proof. exact boot_time_spec. Qed.
+Print Assumptions C19_boot_time.
+
+(* T8: nothing exposed by the kernel: {} / {} / None / None / None *)
 Theorem C19_empty_tree : forall fahr,
-  sensors_temperatures [] [] fahr = Val [] /\ sensors_fans false [] = Val []
-  /\ sensors_battery false (Some []) FAbsent FAbsent = Val None.
+  sensors_temperatures [] [] fahr = Val [] /\ sensors_fans true [] = Val []
+  /\ sensors_battery true (Some []) FAbsent FAbsent = Val None /\ sensors_battery true None FAbsent FAbsent = Val None
+  /\ cpu_freq_mean [] = None.
 Proof. exact empty_tree. Qed.
 Print Assumptions C19_empty_tree.
